@@ -343,7 +343,7 @@ func generate(a *hlib.Args) []rl.Case {
 			shapeFailedThenPartial, shapeTimeoutFull, shapeBlocked, shapeVisible} {
 			if be == "rdb1" && !thorough {
 				c := f(be)
-				if c.Class != "f5-shape" && c.Class != "partial-follows" {
+				if c.Class != "f5-shape" {
 					continue
 				}
 			}
